@@ -1,0 +1,7 @@
+//go:build !verif
+
+package tree
+
+func verifYield(string) {}
+
+func verifYieldAt(string, Entry) {}
